@@ -469,6 +469,11 @@ func (c *FnCtx) loadPtr(addr ssa.Value, st *State, check bool, pos token.Pos) Te
 		return c.loadLoc(l, st)
 	}
 	if g, ok := addr.(*ssa.Global); ok {
+		if g.Pkg != nil && g.Pkg != c.g.pkg {
+			// variables of other packages (io.EOF, os.Stdout, ...) are treated as constants: this
+			// package never assigns them
+			return c.extGlobal(g.Pkg.Pkg.Name()+"."+g.Name(), g.Type().(*types.Pointer).Elem())
+		}
 		l := &Loc{Kind: "global", Comp: c.globalComp(g), T: g.Type().(*types.Pointer).Elem()}
 		return c.loadLoc(l, st)
 	}
@@ -602,4 +607,9 @@ func (c *FnCtx) bitop(op string, x, y Term, t types.Type) Term {
 	c.declareFun(name, []string{"Int", "Int"}, "Int")
 	r := app(name, x, y)
 	return r
+}
+
+func (c *FnCtx) extGlobal(name string, t types.Type) Term {
+	c.extGlobals[name] = true
+	return c.declare("GC$"+sanitize(name), c.sortOf(t))
 }
